@@ -275,7 +275,7 @@ def gen_tl(rs, names: List[str], n: Optional[int] = None, must: Optional[List[st
     terms = [gen_term(rs, names, must) for _ in range(n)]
     if shapes and terms and rs.random() < 0.45:
         # adversarial shapes: duplicates, parallel rows, opposite rows, boxes
-        kind = rs.choice(["dup", "parallel", "opposite", "box", "scaled", "difference", "difference", "difference", "corner", "single", "near"])
+        kind = rs.choice(["dup", "parallel", "opposite", "box", "scaled", "difference", "difference", "difference", "corner", "single", "near", "partial_parallel"])
         t = rs.choice(terms)
         cf = {k: float.fromhex(v[1]) for k, v in t["T"]}
         c0 = float.fromhex(t["c"][1])
@@ -287,6 +287,16 @@ def gen_tl(rs, names: List[str], n: Optional[int] = None, must: Optional[List[st
             terms.append(lit_term({k: -v for k, v in cf.items()}, rs.choice([c0, -c0, 0.0, 3.0])))
         elif kind == "scaled":
             terms.append(lit_term({k: 2.0 * v for k, v in cf.items()}, 2.0 * c0))
+        elif kind == "partial_parallel":
+            # two rows that agree on some variables and differ in one other variable: eliminating the common variables
+            # leaves a singular / inconsistent system for the context-reduction tactics
+            others = [n_ for n_ in names if n_ not in cf]
+            if others and cf:
+                d1, d2 = dict(cf), dict(cf)
+                d1[others[0]] = float(rs.choice([1, -1, 2]))
+                d2[others[-1] if len(others) > 1 else others[0]] = float(rs.choice([1, -1, 0.5]))
+                terms.append(lit_term(d1, c0))
+                terms.append(lit_term(d2, c0 if rs.random() < 0.5 else c0 + 1.0))
         elif kind == "near":
             # almost the same row: identical when printed with four significant digits, different as numbers
             eps = rs.choice([1e-6, -1e-6, 3e-9, 1e-12])
@@ -349,6 +359,23 @@ def gen_initial_pool(rs) -> Dict[str, Dict]:
             if nm not in ins:
                 ins.append(nm)
         pool["C%d" % i] = gen_contract(rs, ins, outs)
+    if rs.random() < 0.3:
+        # a near twin: the same contract with every constant (sometimes every coefficient too) moved in the 6th-12th digit;
+        # the two print identically with four significant digits and are different contracts
+        src_i, dst_i = rs.sample(range(NC), 2)
+        eps = rs.choice([1e-6, -1e-6, 2.5e-4 * 1e-3, 1e-9, 1e-12])
+        both = rs.random() < 0.4
+
+        def twin(tl):  # noqa: WPS430
+            out = []
+            for t in tl["TL"]:
+                c0 = float.fromhex(t["c"][1])
+                coeffs = {k: float.fromhex(v[1]) * ((1.0 + eps) if both else 1.0) for k, v in t["T"]}
+                out.append(lit_term(coeffs, c0 * (1.0 + eps) if c0 != 0 else eps))
+            return {"TL": out}
+
+        c = pool["C%d" % src_i]["C"]
+        pool["C%d" % dst_i] = {"C": [list(c[0]), list(c[1]), twin(c[2]), twin(c[3])]}
     for j in range(NL):
         if rs.random() < 0.5:
             c = pool["C%d" % rs.randrange(NC)]["C"]
@@ -535,6 +562,35 @@ def cancelling_pairs(tls: List[Dict]) -> List[Tuple[str, str]]:
                         out.append((k1, k2))
                         out.append((k2, k1))
     return out
+
+
+def near_twins(c1: Dict, c2: Dict) -> bool:
+    """Two canonical contracts / lists with the same shape whose numbers agree to about three digits but are not all equal."""
+    if ("C" in c1) != ("C" in c2):
+        return False
+    if "C" in c1:
+        if c1["C"][0] != c2["C"][0] or c1["C"][1] != c2["C"][1]:
+            return False
+        t1 = c1["C"][2]["TL"] + c1["C"][3]["TL"]
+        t2 = c2["C"][2]["TL"] + c2["C"][3]["TL"]
+        if len(c1["C"][2]["TL"]) != len(c2["C"][2]["TL"]):
+            return False
+    else:
+        t1, t2 = c1["TL"], c2["TL"]
+    if len(t1) != len(t2) or not t1:
+        return False
+    differs = False
+    for a, b in zip(t1, t2):
+        if [k for k, _v in a["T"]] != [k for k, _v in b["T"]]:
+            return False
+        na = [float.fromhex(v[1]) for _k, v in a["T"]] + [float.fromhex(a["c"][1])]
+        nb = [float.fromhex(v[1]) for _k, v in b["T"]] + [float.fromhex(b["c"][1])]
+        for x, y in zip(na, nb):
+            if x != y:
+                differs = True
+                if abs(x - y) > 1e-3 * max(abs(x), abs(y), 1e-9) and abs(x - y) > 1e-5:
+                    return False
+    return differs
 
 
 def _subset(rs, items: List[str], p: float) -> List[str]:
